@@ -5,7 +5,7 @@ ID = "C16"
 TITLE = "work queue: every class scheduled completely, once, in order; exhaustion is stable; next terminates"
 COQ_PROPS = "Props/C16.v"
 COQ_RUN = ("Queue.Run", "run_c16")
-GEN_TARGETS = []
+GEN_TARGETS = ["queue_can_do_inferral", "queue_can_do_initial", "queue_change_level_order"]   # Queue/GenBridge.v
 N = {"quick": 30000, "thorough": 300000}
 RULE = (
     "random histories (1-90 operations, optionally followed by a drain of next() calls) of "
@@ -469,3 +469,34 @@ def shrink(case):
     ren = {l: i for i, l in enumerate(labs)}
     if any(ren[l] != l for l in labs):
         yield dict(base, ops=[[o[0], ren[o[1]] if o[0] < 4 else 0] for o in ops])
+
+
+_Q_HEAD = "class DefaultQueue:\n"
+# source texts outside the translator's subset / with a changed shape: each must be REJECTED (fail closed)
+_BAD_SNIPPETS = [
+    ("queue_can_do_inferral", _Q_HEAD + "    def can_do_inferral(self, label):\n"
+     "        return bool(self.inferral_strategies) and label not in self._inferral_expanded | self.ignore\n", "set union"),
+    ("queue_can_do_inferral", _Q_HEAD + "    def can_do_inferral(self, label):\n"
+     "        return len(self.inferral_strategies) > 0\n", "no longer reads _inferral_expanded"),
+    ("queue_can_do_initial", _Q_HEAD + "    def can_do_initial(self, label, force=False):\n        return force\n", "changed signature"),
+    ("queue_change_level_order", _Q_HEAD + "    def _change_level(self):\n"
+     "        self.curr_level[0].extend(label for label, _ in self.next_level.most_common())\n", "unsupported method call"),
+    ("queue_change_level_order", _Q_HEAD + "    def _change_level(self):\n"
+     "        self.curr_level[0].extend(label for label, _ in sorted(self.next_level.items(), key=lambda x: -x[1], reverse=True))\n",
+     "second keyword argument of sorted"),
+    ("queue_change_level_order", _Q_HEAD + "    def _change_level(self):\n        if self.next_level:\n"
+     "            self.curr_level[0].extend(label for label, _ in sorted(self.next_level.items(), key=lambda x: -x[1]))\n",
+     "the extend call is wrapped in a new condition"),
+]
+
+
+def extra_checks(ctx):
+    from harness import gen_selftest
+
+    return [gen_selftest.rejects(_BAD_SNIPPETS)] + gen_selftest.checks(GEN_TARGETS, ctx.seed, ID)
+
+
+# translator tie (DESIGN.md 10.9): what the regenerated definitions add to the level
+LEVEL_NOTE += (
+    ' can_do_inferral, can_do_initial and the sort expression of _change_level are RE-TRANSLATED from class_queue.py on every run and the model is proved to compute exactly those (C16_can_do_inferral_is_source, C16_can_do_initial_is_source, C16_level_order_is_source; Queue/GenBridge.v); each regenerated definition is evaluated against the source on random arguments every run (harness/gen_selftest.py).'
+)
